@@ -43,7 +43,10 @@ REQUIRED_MONITORS = ["transparent", "no-raise", "no-deadlock", "cache-files", "r
 def res_xml(name, includes, broken=False):
     if broken:
         return "<odML version=\"1.1\"><section><name>x</name></odML"
-    parts = ['<?xml version="1.0" encoding="UTF-8"?>', '<odML version="1.1">', "<author>%s</author>" % name]
+    # the XML declaration is spelled the way one or another XML writer spells it (or is left out), by resource name
+    decl = ['<?xml version="1.0" encoding="UTF-8"?>', "<?xml version='1.0' encoding='utf-8'?>", None,
+            '<?xml version="1.0" encoding="UTF-8" standalone="yes"?>'][ord(name[0]) % 4]
+    parts = ([decl] if decl else []) + ['<odML version="1.1">', "<author>%s</author>" % name]
     inner = ""
     for i, inc_ in enumerate(includes):
         if len(inc_) > 2 and inc_[2] == "inner":
